@@ -331,6 +331,12 @@ def check(run):
                 ok, why = False, f'raises {e}'
             run.check(ok, 'D4', 'parse_hashmap_aug[pruned]' if not ok else f'aug-pruned[{tag}]', f'{tag}: {why}', wa)
             run.evaluations += 1
+    pin_aug_e(run, prog, 'D4', aug, wa)
+
+
+def pin_aug_e(run, prog, rule, aug, wa):
+    """Slice.load_hashmap_aug_e on ahme_empty / ahme_root: presence bit, root reference and root extra:Y are consumed (also pins the
+    checker's typestate model of this method, sa/tlbslice.py)"""
     # load_hashmap_aug_e: special root cell is returned as is, empty dict consumes one bit
     it = Interp(prog)
     b = it.construct(prog.cls('Builder'), [], {})
@@ -339,8 +345,27 @@ def check(run):
     s = cm.call_method(it, cm.call_method(it, b, 'end_cell'), 'begin_parse')
     res = cm.call_method(it, s, 'load_hashmap_aug_e', K(8), lam(prog, 'lambda s: s.load_uint(8)'), lam(prog, 'lambda s: s.load_uint(4)'))
     left = it.getattr(s, 'remaining_bits')
-    ok = isinstance(res, ListV) and isinstance(res.items[0], DictV) and not res.items[0].d and isinstance(left, K) and left.v == 4
-    run.check(ok, 'D4', 'Slice.load_hashmap_aug_e[empty]' if not ok else 'aug_e[empty]', f'empty HashmapAugE: returned {vrepr(res)[:40]}, {vrepr(left)} bits left (the root extra stays for the caller)', wa)
+    ok = isinstance(res, ListV) and isinstance(res.items[0], DictV) and not res.items[0].d and isinstance(left, K) and left.v == 0
+    run.check(ok, rule, 'Slice.load_hashmap_aug_e[empty]' if not ok else 'aug_e[empty] consumes the root extra', f'empty HashmapAugE (ahme_empty$0 extra:Y): returned {vrepr(res)[:40]}, {vrepr(left)} bits left (presence bit and root extra consumed)', wa)
+    # ahme_root$1 root:^(HashmapAug n X Y) extra:Y
+    kv = {format(k, '08b'): format((k * 37 + 1) % 256, '08b') for k in (16, 17, 200)}
+    tree, rootex = dictspec.build(kv, 8, None, aug)
+    it = Interp(prog)
+    b = it.construct(prog.cls('Builder'), [], {})
+    cm.call_method(it, b, 'store_bit', K(1))
+    cm.call_method(it, b, 'store_ref', bocrun.build(it, tree))
+    cm.call_method(it, b, 'store_uint', K(int(rootex, 2)), K(4))
+    cm.call_method(it, b, 'store_uint', K(5), K(3))
+    s = cm.call_method(it, cm.call_method(it, b, 'end_cell'), 'begin_parse')
+    try:
+        res = cm.call_method(it, s, 'load_hashmap_aug_e', K(8), lam(prog, 'lambda s: s.load_uint(8)'), lam(prog, 'lambda s: s.load_uint(4)'))
+        left, lrefs = it.getattr(s, 'remaining_bits'), it.getattr(s, 'remaining_refs')
+        got = sorted(res.items[0].d) if isinstance(res, ListV) and isinstance(res.items[0], DictV) else None
+        ok = got == [16, 17, 200] and isinstance(left, K) and left.v == 3 and isinstance(lrefs, K) and lrefs.v == 0
+        why = f'keys {got}, {vrepr(left)} bits / {vrepr(lrefs)} refs left (expected the three keys, 3 bits, 0 refs: root reference and root extra consumed)'
+    except RaiseEx as e:
+        ok, why = False, f'raises {e}'
+    run.check(ok, rule, 'Slice.load_hashmap_aug_e[root]' if not ok else 'aug_e[root] consumes the root extra', why, wa)
 
 
 def _edge_paths(ks, base=''):
